@@ -363,11 +363,21 @@ inline std::vector<Op> menu_c16_perm(const Sys &s, const Bf &bf, const Caps &cap
         for (int hf : sf) { if (bf.hfhe[hf].size() != 4) quads = false; for (int he : bf.hfhe[hf]) v8.insert(bf.from(he)); }
         if (!quads || v8.size() != 8) continue;
         std::vector<int> pool = sf;
-        for (int i = 0; (int)pool.size() < caps.pool && i < 6; ++i) pool.push_back(sf[i] ^ 1);
+        // pool <= 7: all tuples (with repetition) over the surface [+ one opposite side];
+        // pool  > 7: the surface plus OTHER free quad halffaces of the mesh (e.g. the outer halffaces of a neighbouring hex, whose
+        //            side faces are coplanar with the freed ones), all tuples WITHOUT repetition - lists that mix two hexes
+        const bool injective = caps.pool > 7;
+        if (!injective) { for (int i = 0; (int)pool.size() < caps.pool && i < 6; ++i) pool.push_back(sf[i] ^ 1); }
+        else {
+            for (int hf = 0; hf < 2 * bf.nf && (int)pool.size() < caps.pool; ++hf) {
+                if (bf.fdel[hf / 2] || bf.hfhe[hf].size() != 4 || !bf.cells_of_hf[hf].empty() || std::count(pool.begin(), pool.end(), hf)) continue;
+                pool.push_back(hf);
+            }
+        }
         std::vector<int> cur;
         std::function<void()> rec = [&]() {
             if (cur.size() == 6) { std::vector<int> a{1}; a.insert(a.end(), cur.begin(), cur.end()); r.push_back(Op(ADD_CELL_HF, a)); return; }
-            for (int h : pool) { cur.push_back(h); rec(); cur.pop_back(); }
+            for (int h : pool) { if (injective && std::count(cur.begin(), cur.end(), h)) continue; cur.push_back(h); rec(); cur.pop_back(); }
         };
         rec();
         break;  // one surface per state
